@@ -124,6 +124,13 @@ def splitAtWrite (k : String) : List String → List String → Option (List Str
     | _ => none
   | _, [] => none
 
+def failedWrite (w : String) (rest : List String) : Bool :=
+  (toks w).head? == some "DS" &&
+  (match rest.map toks with
+   | ["ER", "6"] :: _ => true
+   | ["X"] :: ["ER", "6"] :: _ => true
+   | _ => false)
+
 /-- `S k 2` (IsComplete) is followed by the database write of the same rule (only registrations of
 its discovered dependencies may come in between); the pair becomes the single `finished` event -/
 def mergeFinished : Nat → List String → List String
@@ -133,7 +140,12 @@ def mergeFinished : Nat → List String → List String
     match toks e with
     | ["S", k, "2"] =>
       match splitAtWrite k [] rest with
-      | some (regs, w, rest') => regs ++ (w :: mergeFinished fuel rest')
+      | some (regs, w, rest') =>
+        -- a FAILED database write (`DS k …` answered by the error `ER 6`, possibly with the cancellation `X` that the
+        -- same event triggered in between): the engine reset the rule and nothing was stored, so the registrations are
+        -- kept and the completion is dropped — the reading `evOfToksF` of Lemmas/Refine/Fail0.lean
+        if failedWrite w rest' then regs ++ mergeFinished fuel rest' else
+        regs ++ (w :: mergeFinished fuel rest')
       | none => "BAD complete-without-db-write" :: mergeFinished fuel rest
     | "DS" :: _ => "BAD db-write-without-complete" :: mergeFinished fuel rest
     | _ => e :: mergeFinished fuel rest
@@ -175,6 +187,7 @@ def stepLine (d : DState) (line : String) : DState × String :=
     | some 0 => ({ d with rules := [], st := (step P d.st .restart).getD d.st }, "ok")
     | some k => ({ d with pendingRules := k, acc := [] }, "")
     | none => (d, "bad-op")
+  | ["F"] => (d, "ok")      -- the harness arms a database write failure: no event of its own (the failing build shows `ER 6`)
   | ["E"] => match step P d.st .restart with
     | some s => ({ d with st := s }, "ok")
     | none => (d, "reject restart")
